@@ -16,6 +16,7 @@ import StepModel.GenCxxRedefFull
 import StepModel.GenCxxHeadKey
 import StepModel.GenCxxReadBack
 import StepModel.GenCxxRedefLine
+import StepModel.GenCxxCallsP
 /-!
 # C02 — generated dictionary and classes mirror the EXPRESS schema
 
@@ -498,6 +499,36 @@ theorem C02_derived_calls_closed_form_declared_once {s : Schema} {rank : String 
     (d1 : DeclaredOnce s) (n x cr : String) :
     (x, cr) ∈ derivedCalls s n ↔ derivedIn s (fuelOf s) n x cr = true :=
   C02_derived_calls_closed_form wf rr (oneLine_of_declaredOnce rr d1) n x cr
+
+/-- **Closed form of the `MakeDerived` call list for the search the generator really does** — by name AND creator, the
+    redeclaration chain followed (`populate`, fixes C02-8 and C02-14) — for EVERY schema: no `WF`, no hypothesis on attribute names
+    or redeclarations.  `MakeDerived( x, cr )` is emitted for `n` iff `derivedInP` says so: a supertype's list has `(x, cr)` marked,
+    or an own attribute of `n` named `x` in the DERIVE clause finds `cr` as the FIRST creator, among the creators of the entries named
+    `x` (the supertypes' in SUBTYPE OF order, then those `n` created), that its `SELF\sup.x` may mean — or creates the attribute
+    itself.  (`C02_derived_calls_closed_form` is the same for the name-only search and needs `RedeclNamesOneLine`; this one covers
+    the shapes of defects 8 and 14 as well.) -/
+theorem C02_derived_calls_closed_form_any_schema (s : Schema) (n x cr : String) :
+    (x, cr) ∈ derivedCalls s n ↔ derivedInP s (fuelOf s) n x cr = true :=
+  derivedCalls_closedP C02_dedup_keeps_derivation s n x cr
+
+/-- the closed form on the shapes the name-only form excludes: one attribute name from two supertypes (`w` derives `SELF\q.x`:
+    `q.x`, not `p.x`), and a redeclaration chain with the name in two lines (`gix` derives `SELF\gz.eo`: `exh.eo`, not `vg.eo`) -/
+example :
+    let two : Schema :=
+      { name := "two", entities := [
+          { name := "p", attrs := [{ name := "x", type := .base .integer }] },
+          { name := "q", attrs := [{ name := "x", type := .base .real }] },
+          { name := "u", supers := ["p", "q"] },
+          { name := "w", supers := ["u"], attrs := [{ name := "x", redecl := some "q", kind := .derived, type := .base .real }] }] }
+    let ch : Schema :=
+      { name := "twochain", entities := [
+          { name := "vg", attrs := [{ name := "eo", type := .base .logical }] },
+          { name := "exh", attrs := [{ name := "eo", type := .base .number }] },
+          { name := "gz", supers := ["vg", "exh"], attrs := [{ name := "eo", redecl := some "exh", type := .base .number }] },
+          { name := "gix", supers := ["gz"], attrs := [{ name := "eo", redecl := some "gz", kind := .derived, type := .base .number }] }] }
+    derivedInP two (fuelOf two) "w" "x" "q" = true ∧ derivedInP two (fuelOf two) "w" "x" "p" = false ∧
+    derivedInP ch (fuelOf ch) "gix" "eo" "exh" = true ∧ derivedInP ch (fuelOf ch) "gix" "eo" "vg" = false := by
+  decide
 
 /-- A derivation on ANY supertype path counts, whatever the order of the SUBTYPE OF list (fix C02-11): `b` redeclares `SELF\a.x`
     in its DERIVE clause, `c` does not; both `u SUBTYPE OF (c, b)` and `u SUBTYPE OF (b, c)` get `MakeDerived( "x", "a" )`.
